@@ -12,7 +12,7 @@ func c01Opts() lab.GenOpts {
 	return lab.GenOpts{
 		Engines: []string{"v1", "v2"}, MaxSources: 3, MaxDests: 3, MaxRecords: 14, MaxProcs: 2,
 		Nacks: true, ProcErrors: true, Filters: true, Splits: true, Conditions: true, Workers: true,
-		ReadFaults: true, StreamErrs: true, DLQFaults: true, GateCommits: true, GateAcks: true,
+		ReadFaults: true, StreamErrs: true, DLQFaults: true, GateCommits: true, GateAcks: true, FreeSched: 15,
 		ClientKinds: []string{"stop", "stopandwait", "forcestop", "stopall"}, ClientProb: 0.5,
 		MaxRetries: []int64{0, 1, 2},
 	}
